@@ -135,4 +135,16 @@ CHECKS["C10"] = {
     "note": "Contract (no increment from zero once a waiter has waited) is the model's `broken` flag, excluded by hypothesis; no-stuck partial.",
     "technique": "Coq inductive invariants over source-regenerated transition system + lock-step trace inclusion + linearizability oracle",
 }
+CHECKS["C11"] = {
+    "text": "Theorems (Coq) over WaitNModel (nsync_wait_n step by step for any count incl. the heap path, abstract note/counter/cv objects "
+            "faithful to their enqueue/dequeue contracts, signal/broadcast split so that cv_dequeue can run between take and store), any "
+            "threads/schedules/clock: a returned index names an object that was ready when selected; count only after the deadline was "
+            "observed and every dequeue found the record registered; a record woken by a waker implies the caller's semaphore is posted or "
+            "the V is pending; on return no record of the call is on any list or private wake list; unlock after every enqueue and lock iff "
+            "unlock; no step touches a record of a returned call (C13_waker_footprint).  Two-pass lock-step replay; scenario oracles incl. "
+            "'a broadcast completed before the deadline on a cv the call was registered on forbids a timeout result'.",
+    "design_ref": "DESIGN.md section 4, C11",
+    "note": "Objects abstract (coverage.partial); C11_mutex in its `_partial` form, the stronger reading refuted with a witness.",
+    "technique": "Coq inductive invariants over transition system + lock-step trace inclusion + scenario oracles",
+}
 NOT_APPLICABLE = {}
